@@ -218,3 +218,12 @@ prop('C18', units=['fr', 'ut'], level='proof',
                   'FR assumes for utils::range_excluding_trivia the clauses UT proves (same predicates has_token / is_trimmed_range)',
                   'descendants().filter_map(f).map(g).collect() yields g(r) for every descendant n with f(n) == Some(r), in document order (R14 helper)',
                   'nodes of a rowan tree are nested or disjoint'])
+
+prop('C19', units=['ih'], level='proof',
+     explanation=('Partial: the range clause only. Verus proves on the real text of ide::handlers::inlay_hint::exec that every hint it returns has its position inside the requested range: '
+                  'the filter closure of the final hints.retain(..) is moved into a function and proved to answer start <= position <= end, and Vec::retain is assumed to keep exactly the '
+                  'elements for which it answers true. What the gathering loop produces (rowan navigation, format!) is not constrained. NOT decided: the hover half (signature and doc comments), that '
+                  'each positional template argument is labelled with the parameter it binds, that a field override is labelled with the declared type, and the placement of the hints.'),
+     assumptions=['Verus/Z3/rustc sound; extraction faithful (round-trip audit)',
+                  'TextRange::contains_inclusive(o) is start <= o <= end (text-size); Vec::retain keeps exactly the elements for which the closure answers true (R14 helper)',
+                  'the loop that gathers the hints is outlined (R14) with no contract: nothing about its result is used'])
